@@ -21,6 +21,16 @@ import (
 
 const Root = "/verif"
 
+// OutRoot is where evidence/ and replays/ are written: /verif, or $VERIF_OUT for
+// self-test runs against deliberately broken trees (which must not overwrite the
+// evidence of the unchanged tree).
+func OutRoot() string {
+	if d := os.Getenv("VERIF_OUT"); d != "" {
+		return d
+	}
+	return Root
+}
+
 // R collects the results of one run of one property check.
 type R struct {
 	Prop  string
@@ -198,7 +208,7 @@ func (r *R) Finish() {
 			continue
 		}
 		unknown++
-		dir := filepath.Join(Root, "replays", r.Prop)
+		dir := filepath.Join(OutRoot(), "replays", r.Prop)
 		os.MkdirAll(dir, 0o755)
 		h := sha256.Sum256([]byte(sig))
 		p := filepath.Join(dir, hex.EncodeToString(h[:6])+".json")
@@ -241,8 +251,8 @@ func (r *R) Finish() {
 		"coverage": cov, "assumptions": r.assume, "wall_s": wall, "violations": unknown}
 	if r.replaySig == "" {
 		b, _ := json.MarshalIndent(ev, "", " ")
-		os.MkdirAll(filepath.Join(Root, "evidence"), 0o755)
-		if err := os.WriteFile(filepath.Join(Root, "evidence", r.Prop+".json"), b, 0o644); err != nil {
+		os.MkdirAll(filepath.Join(OutRoot(), "evidence"), 0o755)
+		if err := os.WriteFile(filepath.Join(OutRoot(), "evidence", r.Prop+".json"), b, 0o644); err != nil {
 			fmt.Println("cannot write evidence:", err)
 			os.Exit(3)
 		}
